@@ -615,59 +615,90 @@ GO_VERS = ['v0.14.0', 'v1.8.4', 'v2.0.0+incompatible', 'v1.2.3-beta.1', 'v0.0.0-
 
 
 def gen_go_mod(rnd):
+    """builds the file as a list of lines of the reference grammar (Spec/GoModFile.v) and renders it"""
     doc = Doc('go_mod')
     nl = rnd.choice(['\n', '\n', '\n', '\r\n'])
-    out = Out(nl)
     if nl == '\r\n':
         doc.classes.add('gomod-crlf')
-    out.w('module example.com/demo' + nl + nl + 'go 1.21' + nl + nl)
+    glines = [('other', 'module example.com/demo'), ('other', ''), ('other', 'go 1.21'), ('other', '')]
     blocks = [rnd.choice(['single', 'block', 'block', 'replace', 'exclude', 'comment', 'retract']) for _ in range(rnd.randrange(1, 5))]
     sep = lambda: rnd.choice([' ', ' ', '\t', '  '])
+    tail = lambda: rnd.choice([('', None), ('', None), (' ', ' indirect'), ('\t', ' indirect'), (' ', 'x'), (' ', None), ('\t ', None), ('  ', ' indirect  ')])
     for b in blocks:
         if b == 'single':
             m, v = rnd.choice(GO_MODS), rnd.choice(GO_VERS)
-            indent = rnd.choice(['', '', '', ' ', '\t'])
             cls = set()
             if rnd.random() < 0.08:
                 m = m + '/' + v      # a module path that contains the version text
                 cls.add('gomod-path-contains-version')
-            out.w(indent + 'require' + sep() + m + sep())
+            glines.append(('require', rnd.choice(['', '', '', ' ', '\t']), sep(), m, sep(), v, tail(), cls))
+        elif b == 'block':
+            glines.append(('open', '', rnd.choice([' ', '', '  ']), rnd.choice(['', '', ' '])))
+            for _ in range(rnd.choice([0, 1, 2, 3])):
+                if rnd.random() < 0.1:
+                    glines.append(('other', rnd.choice(['', '\t// a comment'])))
+                glines.append(('spec', rnd.choice(['\t', '    ', '', '\t\t']), rnd.choice(GO_MODS), sep(), rnd.choice(GO_VERS), tail(), set()))
+            ct = rnd.random()
+            glines.append(('close', rnd.choice(['', ' ']), rnd.choice([('', None), ('', None), (' ', None), ('\t', None), (' ', ' end of requires'), ('', ' x'), ('  ', '')]) if ct < 0.5 else ('', None)))
+        elif b == 'replace':
+            if rnd.random() < 0.5:
+                glines.append(('other', 'replace example.com/old v1.0.0 => example.com/new v1.2.0'))
+            else:
+                glines += [('other', 'replace ('), ('other', '\texample.com/old => ../local'), ('other', '\texample.com/x v1.0.0 => example.com/y v1.1.0'), ('other', ')')]
+        elif b == 'exclude':
+            glines += [('other', 'exclude example.com/bad v1.0.1')] if rnd.random() < 0.5 else [('other', 'exclude ('), ('other', '\texample.com/bad v1.0.1'), ('other', ')')]
+        elif b == 'retract':
+            glines += [('other', 'retract v1.0.5 // broken')] if rnd.random() < 0.5 else [('other', 'retract ('), ('other', '\tv1.0.0 // bad'), ('other', '\t[v1.1.0, v1.2.0]'), ('other', ')')]
+        else:
+            glines.append(('other', '// require example.com/not v1.0.0'))
+        if rnd.random() < 0.5:
+            glines.append(('other', ''))
+    out = Out(nl)
+
+    def wtail(t):
+        out.w(t[0] + ('//' + t[1] if t[1] is not None else ''))
+    for g in glines:
+        if g[0] == 'require':
+            _, ind, s1, m, s2, v, t, cls = g
+            out.w(ind + 'require' + s1 + m + s2)
             s = out.mark()
             out.w(v)
             e = out.mark()
-            out.w(rnd.choice(['', '', ' // indirect', '\t// indirect', ' //x']) + nl)
+            wtail(t)
             doc.declared.append({'name': m, 'spec': v, 'hash': None, 'start': s, 'end': e, 'classes': cls, 'token': (s, e)})
-        elif b == 'block':
-            out.w('require' + rnd.choice([' ', '', '  ']) + '(' + nl)
-            for _ in range(rnd.choice([0, 1, 2, 3])):
-                if rnd.random() < 0.1:
-                    out.w(rnd.choice(['', '\t// a comment']) + nl)
-                m, v = rnd.choice(GO_MODS), rnd.choice(GO_VERS)
-                out.w(rnd.choice(['\t', '    ', '', '\t\t']) + m + sep())
-                s = out.mark()
-                out.w(v)
-                e = out.mark()
-                out.w(rnd.choice(['', '', ' // indirect', '\t// indirect', ' ', '\t ', '  // indirect  ']) + nl)
-                doc.declared.append({'name': m, 'spec': v, 'hash': None, 'start': s, 'end': e, 'classes': set(), 'token': (s, e)})
-            close = rnd.random()
-            if close < 0.15:
-                out.w(rnd.choice([') // end of requires', ')// x', ')  //', ' ) // y ']) + nl)
-            else:
-                out.w(rnd.choice(['', ' ']) + ')' + rnd.choice(['', '', ' ', '\t']) + nl)
-        elif b == 'replace':
-            if rnd.random() < 0.5:
-                out.w('replace example.com/old v1.0.0 => example.com/new v1.2.0' + nl)
-            else:
-                out.w('replace (' + nl + '\texample.com/old => ../local' + nl + '\texample.com/x v1.0.0 => example.com/y v1.1.0' + nl + ')' + nl)
-        elif b == 'exclude':
-            out.w(rnd.choice(['exclude example.com/bad v1.0.1', 'exclude (' + nl + '\texample.com/bad v1.0.1' + nl + ')']) + nl)
-        elif b == 'retract':
-            out.w(rnd.choice(['retract v1.0.5 // broken', 'retract (' + nl + '\tv1.0.0 // bad' + nl + '\t[v1.1.0, v1.2.0]' + nl + ')']) + nl)
+        elif g[0] == 'spec':
+            _, ind, m, s1, v, t, cls = g
+            out.w(ind + m + s1)
+            s = out.mark()
+            out.w(v)
+            e = out.mark()
+            wtail(t)
+            doc.declared.append({'name': m, 'spec': v, 'hash': None, 'start': s, 'end': e, 'classes': cls, 'token': (s, e)})
+        elif g[0] == 'open':
+            out.w(g[1] + 'require' + g[2] + '(' + g[3])
+        elif g[0] == 'close':
+            out.w(g[1] + ')')
+            wtail(g[2])
         else:
-            out.w('// require example.com/not v1.0.0' + nl)
-        if rnd.random() < 0.5:
-            out.w(nl)
+            out.w(g[1])
+        out.w(nl)
+    doc.abstract = glines
     return doc.finish(out)
+
+
+def g_gline(g, gb):
+    """Gallina term of one line of the reference grammar (gb renders a byte string)"""
+    def tl(t):
+        return f'(mkTail {gb(t[0])} {"None" if t[1] is None else "(Some " + gb(t[1]) + ")"})'
+    if g[0] == 'require':
+        return f'(LRequire {gb(g[1])} {gb(g[2])} {gb(g[3])} {gb(g[4])} {gb(g[5])} {tl(g[6])})'
+    if g[0] == 'spec':
+        return f'(LSpec {gb(g[1])} {gb(g[2])} {gb(g[3])} {gb(g[4])} {tl(g[5])})'
+    if g[0] == 'open':
+        return f'(LOpen {gb(g[1])} {gb(g[2])} {gb(g[3])})'
+    if g[0] == 'close':
+        return f'(LClose {gb(g[1])} {tl(g[2])})'
+    return f'(LOther {gb(g[1])})'
 
 
 GENERATORS = {'package_json': gen_package_json, 'deno_json': gen_deno_json, 'cargo_toml': gen_cargo_toml, 'pyproject_toml': gen_pyproject,
